@@ -25,9 +25,10 @@ pub enum XsdDateTime {
 
 impl XsdDateTime {
     fn new(s: &str) -> Option<Self> {
+        // NB: `[0-9]` rather than `\d`, which also matches non-ASCII decimal digits
         static RE: LazyLock<Regex> = LazyLock::new(|| {
             Regex::new(r"(?x)
-            ^ (-)?(\d{4,}) - (\d{2} - \d{2} T \d{2} : \d{2} : \d{2}) (?:\.(\d+))? ( Z | [-+]\d{2}:\d{2} )? $
+            ^ (-)?([0-9]{4,}) - ([0-9]{2} - [0-9]{2} T [0-9]{2} : [0-9]{2} : [0-9]{2}) (?:\.([0-9]+))? ( Z | [-+][0-9]{2}:[0-9]{2} )? $
         ").unwrap()
         });
 
